@@ -219,6 +219,90 @@ def field_content_rule(rep):
     rep.floor("C10.f", n, 8)
 
 
+def step_equality_rule(rep):
+    from ..engines import advance
+    rep.rule("C10.g", "two XPath steps are equal only if their name tests are: XercesStep::operator== interpreted for every axis "
+             "type with both operands on the same axis — for the axes that carry a name test in selectors and fields (child, "
+             "attribute) the result is the comparison of the node tests; steps that only differ in the name they test (`@id` vs "
+             "`@ref`) must not be merged, or a field matches the wrong attribute")
+    g = core.run_xa([os.path.join(core.REPO, "src/xercesc/validators/schema/identity/XercesXPath.cpp")], st=r"^XercesStep::operator==$", flat=False)
+    body = g.st("XercesStep::operator==")["body"]
+    en = g.enums.get("XercesStep::AxisType")
+    if not en:
+        raise AnalysisBroken("enum XercesStep::AxisType not found")
+    vals = {n_: v for n_, v in en["items"]}
+    need = {"AxisType_CHILD", "AxisType_ATTRIBUTE"}
+    if not need <= set(vals):
+        raise AnalysisBroken("XercesStep::AxisType lost CHILD / ATTRIBUTE")
+    n = 0
+    for name, a in sorted(vals.items()):
+        if name.endswith("UNKNOWN"):
+            continue
+        for nt_equal in (0, 1):
+            consulted = []
+
+            def hook(x, st, it, nt_equal=nt_equal, consulted=consulted):
+                if x[1].startswith("XercesNodeTest::operator"):
+                    consulted.append(1)
+                    return nt_equal if x[1].endswith("==") else 1 - nt_equal
+                return NotImplemented
+
+            class I2(advance.Interp):
+                def ev(self, x, st):
+                    if x and x[0] == "f" and x[1] == "XercesStep::fAxisType":
+                        return a                      # both operands on the same axis
+                    if x and x[0] == "b" and x[1] == "==" and x[2] == ["this"]:
+                        return 0                      # two distinct step objects
+                    return advance.Interp.ev(self, x, st)
+            it = I2(call_hook=hook)
+            outs = set()
+            for kind, s2 in it.run(body, advance.State({})):
+                outs.add(s2.v.get("__ret"))
+            want = nt_equal if name in need else 1
+            n += 1
+            ok = outs == {want}
+            rep.ob("C10.g", "%s/nodetest-%s" % (name, "equal" if nt_equal else "different"), ok, "== gives %s" % want if ok else
+                   "XercesStep::operator== for two %s steps whose node tests are %s returns %s; expected %s — steps on that axis that test "
+                   "different names are treated as the same step" % (name, "equal" if nt_equal else "different", sorted(outs, key=str), want),
+                   "src/xercesc/validators/schema/identity/XercesXPath.cpp")
+    rep.floor("C10.g", n, 6)
+
+
+def transplant_rule(rep, f):
+    rep.rule("C10.h", "when a scope ends, its key/unique values are added to the store that keyref lookups see: in "
+             "ValueStoreCache::transplant the store obtained from fGlobalICMap is the receiver of every ValueStore::append and the "
+             "scope's own store (from fIC2ValueStoreMap) is its argument — appended the other way round, the values of the enclosing "
+             "or earlier scope are written into a store nobody consults and a keyref to them is reported as unmatched")
+    origin, n = {}, 0
+    for x in f.kind("local"):
+        if x["_fn"]["q"].endswith("ValueStoreCache::transplant") and x.get("init") and x["init"][0] == "c" and x["init"][2] and x["init"][2][0] == "f":
+            origin[x["name"]] = x["init"][2][1].split("::")[-1]
+    def src(e):
+        if e and e[0] == "l":
+            return origin.get(e[1], "?")
+        if e and e[0] == "c" and e[2] and e[2][0] == "f":
+            return e[2][1].split("::")[-1]
+        return "?"
+    for x in f.kind("call"):
+        c = x["x"]
+        if not x["_fn"]["q"].endswith("ValueStoreCache::transplant"):
+            continue
+        where = "%s:%s" % (x["_fn"]["file"], x.get("l", 0))
+        if c[1] == "ValueStore::append":
+            n += 1
+            r, a = src(c[2]), src(c[3][0]) if c[3] else "?"
+            ok = r == "fGlobalICMap" and a == "fIC2ValueStoreMap"
+            rep.ob("C10.h", "transplant@append:%s" % x.get("l"), ok, "global store grows by the scope's store" if ok else
+                   "ValueStoreCache::transplant appends the store from %s to the store from %s: the store registered in fGlobalICMap "
+                   "does not receive the ending scope's values" % (a, r), where)
+        elif c[1].endswith("::put") and src(c) == "fGlobalICMap":
+            n += 1
+            a = src(c[3][1]) if len(c[3]) > 1 else "?"
+            rep.ob("C10.h", "transplant@put:%s" % x.get("l"), a == "fIC2ValueStoreMap", "first scope's store registered" if a == "fIC2ValueStoreMap" else
+                   "ValueStoreCache::transplant registers a store from %s in fGlobalICMap, not the ending scope's store" % a, where)
+    rep.floor("C10.h", n, 2)
+
+
 def run(rep):
     f = core.library_facts()
     rep.units.update(os.path.relpath(t, core.REPO) for t in f.tus)
@@ -227,6 +311,8 @@ def run(rep):
     context_rule(rep, f)
     store_reset_rule(rep, f)
     field_content_rule(rep)
+    step_equality_rule(rep)
+    transplant_rule(rep, f)
     diag.run(rep, f, "C10")
     dispatch.run(rep, f, "C10")
     rep.undecided += ["value-space equality of field tuples (canonical forms, hashing)", "scoping results of key/keyref across nested scopes",
